@@ -70,8 +70,14 @@ static Json put_op(G &g, int obj, int slot, const Cfg &c) {
     Json j = mk("PUT");
     j.set("obj", obj).set("slot", slot).set("len", (i64) pick_len(g, c));
     j.set("pat", g.data.chance(3, 4) ? 0 : (int) g.data.range(1, 4)).set("dseed", (i64) (g.data.next() >> 16));
+    if (g.data.chance(1, 30)) j.set("pat", g.data.chance(1, 2) ? 8 : 9);   // data that looks like a fragment (magic at the header's offset / a whole header) in every block
     j.set("al", g.data.chance(2, 3) ? 16 : (int) g.data.below(16));
     return j;
+}
+// the caller stores fragments in roomier slots and passes the slot size as the fragment length (buffers really are that large)
+static void maybe_slack(Rng &r, Json &j, int one_in = 12) {
+    static const int sl[] = {1, 3, 16, 48, 64, 100, 432, 4016};
+    if (r.chance(1, (u64) one_in)) j.set("slack", sl[r.below(8)]);
 }
 static int pick_al(Rng &r) { unsigned x = (unsigned) r.below(10); return x < 6 ? 16 : x < 8 ? 0 : (int) r.range(1, 15); }
 
@@ -88,10 +94,16 @@ static Json delivery(G &g, u64 mask, int n, bool shape_faults) {
             for (int i = 0; i < d; i++) idx.insert(idx.begin() + r.below(idx.size() + 1), idx[r.below(idx.size())]);
         }
     }
+    if (shape_faults && !idx.empty() && (g.index & 3) == 2 && g.prop != "C18" && r.chance(1, 600)) {   // (not in thread plans: every entry costs lock operations, i.e. yields of the budgeted scheduler)
+        // an enormous list that repeats the very same buffers (on the small-stack runs): nothing sized by the caller's count may live on the stack
+        size_t want = (size_t) r.range(100000, 160000), base = idx.size();
+        for (size_t i = 0; idx.size() < want; i++) idx.push_back(idx[i % base]);
+    }
     Json dl = Json::arr();
     std::set<int> seen;
     for (int d : idx) {
         Json e = Json::obj(); e.set("dev", d).set("al", shape_faults ? pick_al(r) : 16);
+        if (idx.size() > 1000) { if (!seen.insert(d).second) { e.set("al", 16).set("same", 1); } dl.push(e); continue; }
         if (!seen.insert(d).second && r.chance(1, 2)) e.set("same", 1);   // the very same buffer passed twice, not a copy
         dl.push(e);
     }
@@ -166,6 +178,7 @@ static void gen_roundtrip(G &g, bool isal) {
             Json j = mk("GET"); j.set("obj", o).set("slot", 0).set("force", g.faults.chance(1, 3) ? 1 : 0).set("dl", delivery(g, s, c.n(), !free_run));
             // the writer's switch is a property of the writer: a reader runs with whatever its own environment holds
             if (g.faults.chance(1, 10)) { static const char *ev[] = {"1", "0", "yes", ""}; if (g.faults.chance(1, 4)) j.set("env", Json()); else j.set("env", ev[g.faults.below(4)]); }
+            maybe_slack(g.faults, j);
             if (isal && g.plan.chance(1, 12)) {   // a refused create of either adapter while this instance is live: the shared plug-in must stay loaded
                 Cfg bad = c; bad.be = g.plan.chance(1, 2) ? BE_IV : BE_IC; static const int bw[] = {5, 1, 7, 63, 64, 100}; bad.w = bw[g.plan.below(6)];
                 g.ops.push(create_op(7, bad, -1)); g.ops.push(mk("DESTROY").set("slot", 7));
@@ -185,6 +198,7 @@ static void gen_roundtrip(G &g, bool isal) {
             else if (x < 17 || g.prop == "C01" || g.prop == "C19") dest = (int) g.plan.below(c.n());
             else { static const int bad[] = {-1, 0, 1, 2, INT32_MAX, INT32_MIN}; int b = bad[g.plan.below(6)]; dest = (b >= 0 && b <= 2) ? c.n() + b : b; }
             j.set("dest", dest).set("oal", pick_al(g.faults)).set("dl", delivery(g, s, c.n(), !free_run));
+            maybe_slack(g.faults, j);
             if (twin && dest >= 0 && dest < c.n() && g.plan.chance(1, 2)) {   // the same loss set and destination on the twin, immediately before
                 Json t = mk("REPAIR"); t.set("obj", 9).set("slot", 1).set("dest", dest).set("oal", 16).set("dl", delivery(g, s, c.n(), false)); g.ops.push(t);
             }
@@ -240,6 +254,7 @@ static void gen_c02(G &g) {
         if (big3 && i < 2) s = full(n) & ~random_subset(r, c.k, 3);
         if (r.chance(1, 2)) {
             Json j = mk("GET"); j.set("obj", 0).set("slot", 0).set("force", r.chance(1, 4) ? 1 : 0).set("dl", delivery(g, s, n, true));
+            maybe_slack(r, j, 16);
             g.ops.push(j);
         } else {
             Json j = mk("REPAIR"); j.set("obj", 0).set("slot", 0).set("dest", (int) r.below(n)).set("oal", pick_al(r)).set("dl", delivery(g, s, n, true));
@@ -675,12 +690,16 @@ static void gen_c20(G &g) {
                 else if (z == 3) fx.push(fx1("legacyseal"));
                 else fx.push(fx_field("mismatch", 0, 2));
             }
-            bool first_only = r.chance(1, 2);   // with duplicated delivery: the damaged copy comes first, a good one later
-            for (auto &e : dl.a) if (e["dev"].in() == sv[q]) { e.set("fx", fx); e.erase("same"); if (first_only) break; }
+            unsigned which = (unsigned) r.below(3);
+            if (dl.a.size() > 1000 && which == 0) which = 1 + (unsigned) r.below(2);   // (an enormous list: one damaged copy, the repeats stay the same buffer)
+            // with duplicated delivery: all copies damaged / only the first (a good one later) / only the last (a good one first)
+            if (which == 2) { for (size_t z = dl.a.size(); z-- > 0;) if (dl.a[z]["dev"].in() == sv[q]) { dl.a[z].set("fx", fx); dl.a[z].erase("same"); break; } }
+            else for (auto &e : dl.a) if (e["dev"].in() == sv[q]) { e.set("fx", fx); e.erase("same"); if (which == 1) break; }
         }
         // the flag is an int: any non-zero value asks for the checks
         static const int forces[] = {1, 1, 1, 1, 1, 2, 0x100, -2, INT_MIN, 0x7fffffff, -1, 0x10000};
         Json j = mk("GET"); j.set("obj", 0).set("slot", 0).set("force", r.chance(9, 10) ? forces[r.below(12)] : 0).set("dl", dl);
+        maybe_slack(r, j, 8);
         g.ops.push(j);
     }
 }
